@@ -30,6 +30,29 @@ def bits_of(ty):
     return INT_BITS.get(ty, 64)
 
 
+def range_of(e):
+    """(lo, hi, inclusive) for a Range / RangeInclusive valued origin expression, else None"""
+    e = strip(e)
+    if e[0] == "agg" and e[1].endswith("ops::Range"):
+        d = dict(e[3])
+        return d["start"], d["end"], False
+    if e[0] == "call" and e[1].split("::")[-1] == "new" and "RangeInclusive" in e[1] and len(e[2]) == 2:
+        return e[2][0], e[2][1], True
+    if e[0] == "agg" and e[1].endswith("ops::RangeInclusive"):
+        d = dict(e[3])
+        return d["start"], d["end"], True
+    return None
+
+
+def is_cmp_atom(a):
+    """comparison atoms of the interval-predicate fragment: binary comparisons and Range(Inclusive)::contains"""
+    if a[0] == "bin" and a[1] in ("Lt", "Le", "Gt", "Ge", "Eq", "Ne"):
+        return True
+    if a[0] == "call" and a[1].split("::")[-1] == "contains" and len(a[2]) == 2 and range_of(a[2][0]) is not None:
+        return True
+    return False
+
+
 class Eval:
     """evaluates origin expressions over an environment {leaf expr -> raw 64-bit pattern};
     `atoms` maps opaque boolean atoms (e.g. calls) to truth values supplied by the rule."""
@@ -88,6 +111,13 @@ class Eval:
             if last in ("wrapping_add",):
                 (a, ta), (b, tb) = self.val(e[2][0]), self.val(e[2][1])
                 return ((a + b) & ((1 << bits_of(ta)) - 1), ta)
+            if last == "contains" and len(e[2]) == 2 and range_of(e[2][0]) is not None:
+                lo, hi, incl = range_of(e[2][0])
+                (x, tx) = self.val(e[2][1])
+                (l, _), (h, _) = self.val(lo), self.val(hi)
+                if is_signed_ty(tx):
+                    x, l, h = signed(x, bits_of(tx)), signed(l, bits_of(tx)), signed(h, bits_of(tx))
+                return (int(l <= x and (x <= h if incl else x < h)), "bool")
             if last == "max" or last == "min":
                 (a, ta), (b, tb) = self.val(e[2][0]), self.val(e[2][1])
                 return ((max if last == "max" else min)(a, b), ta)
